@@ -1,7 +1,7 @@
 (* Properties/C01.v -- Encode -> symbol -> decode returns exactly the original bytes (what is a theorem so far). *)
 From Coq Require Import Arith ZArith NArith List Bool.
 From DM Require Import Spec.Stream16022 Proofs.EncAB Proofs.EncAscii Proofs.PlanAscii Proofs.EncB256 Model.Planner Generated.Symbols Generated.ModeTables Model.PlannerRun Spec.GF256 Model.Outcome Model.SymbolList Model.RSEnc Model.Dec Model.Enc Model.Api
-  Proofs.Pipeline Proofs.EncAX Proofs.EncAC.
+  Proofs.Pipeline Proofs.EncAX Proofs.EncAC Proofs.EncMulti.
 Import ListNotations.
 
 (* Symbol layer (full): for every size, whatever data codewords the data encoder produced (any byte vector of
@@ -195,6 +195,54 @@ Proof. vm_compute. reflexivity. Qed.
 (* NOT a theorem for the other plans: decode_data (data codewords of encode) = Ok input under arbitrary plans of the
    optimiser (the encoder side of C02 for C40/Text/X12/EDIFACT/Base256 runs).  The check evaluates it on every case:
    encode, decode both ways, compare with the input. *)
+
+(* ... and for plans that MIX ASCII, Base256, X12, C40 and Text -- everything but EDIFACT --, any planner, any mode set, hence the default
+   configuration: if no non-ASCII run starts within the last two characters of the message (plan entries (p, m) mean "switch to m when p
+   characters are left"; the closing entry at 0 is never acted upon), the round trip is a theorem.  The side condition keeps the end-of-data
+   shortcuts of the X12 and C40 / Text encoders sound: they hand the last one or two characters to ASCII whatever the plan says, which is legal
+   only if no latch for another mode has just been scheduled (Proofs/EncMulti.v).  `p5b` is the condition as a test; the check evaluates it on
+   the plan of every generated case and counts how many are inside the theorem *)
+Theorem C01_mixed_plan_roundtrip : forall optimize_fn data symbols modes cw s,
+  (forall p, optimize_fn data 0 symbols modes = Ok (Some p) ->
+     Forall (fun e => (snd e = Ascii \/ snd e = Base256 \/ snd e = X12 \/ snd e = C40 \/ snd e = Text) /\ (snd e <> Ascii -> 2 < fst e \/ fst e = 0)) p) ->
+  bytes_ok data = true ->
+  encode_data_internal optimize_fn data symbols None modes false false = Ok (cw, s) ->
+  decode_data cw = Ok data.
+Proof. intros o d sy m cw s HP OK H. exact (proj2 (plan5_roundtrip o sy m d HP cw s OK H)). Qed.
+Print Assumptions C01_mixed_plan_roundtrip.
+
+Theorem C01_mixed_plan_test : forall optimize_fn data symbols modes cw s,
+  (forall p, optimize_fn data 0 symbols modes = Ok (Some p) -> p5b p = true) ->
+  bytes_ok data = true ->
+  encode_data_internal optimize_fn data symbols None modes false false = Ok (cw, s) ->
+  decode_data cw = Ok data.
+Proof. intros o d sy m cw s HP OK H. exact (proj2 (plan5_roundtrip o sy m d (fun p E => p5b_P5 p (HP p E)) cw s OK H)). Qed.
+Print Assumptions C01_mixed_plan_test.
+
+Theorem C01_mixed_plan_macro : forall optimize_fn symbols modes msg body m head cw s,
+  (forall p, optimize_fn body 1 symbols modes = Ok (Some p) -> p5b p = true) -> bytes_ok body = true ->
+  (m = MACRO05 /\ head = MACRO05_HEAD) \/ (m = MACRO06 /\ head = MACRO06_HEAD) ->
+  msg = head ++ body ++ MACRO_TRAIL ->
+  encode_data_internal optimize_fn msg symbols None modes true false = Ok (cw, s) ->
+  decode_data cw = Ok msg.
+Proof. intros o sy mo msg b m h cw s HP OK HM HD H. exact (proj2 (macro_plan5_roundtrip o sy mo msg b m h cw s (fun p E => p5b_P5 p (HP p E)) OK HM HD H)). Qed.
+Print Assumptions C01_mixed_plan_macro.
+
+Theorem C01_mixed_plan_fnc1 : forall optimize_fn symbols modes msg use_macros cw s,
+  (forall p, optimize_fn msg 1 symbols modes = Ok (Some p) -> p5b p = true) -> bytes_ok msg = true ->
+  encode_data_internal optimize_fn msg symbols None modes use_macros true = Ok (cw, s) ->
+  decode_data cw = Ok msg.
+Proof. intros o sy mo msg um cw s HP OK H. exact (proj2 (fnc1_plan5_roundtrip o sy mo msg um cw s (fun p E => p5b_P5 p (HP p E)) OK H)). Qed.
+Print Assumptions C01_mixed_plan_fnc1.
+
+(* the default configuration on a message of mixed kind: the optimiser's plan uses Base256, X12 and Text, passes the test, and the theorem applies *)
+Example C01_mixed_example :
+  let d := [200; 201; 202; 203; 204; 205; 206; 207; 65; 66; 67; 68; 69; 70; 71; 72; 73; 74; 75; 76; 32; 65; 66; 67; 97; 98; 99; 100; 101; 102; 103; 104; 105; 106; 107; 108; 109; 110; 111; 33; 34] in
+  optimize_fn stable_sorter d 0 sl_default 63 = Ok (Some [(41, Base256); (33, X12); (18, Ascii); (17, Text); (2, Ascii); (0, Ascii)]) /\
+  p5b [(41, Base256); (33, X12); (18, Ascii); (17, Text); (2, Ascii); (0, Ascii)] = true /\
+  match encode_data_internal (optimize_fn stable_sorter) d sl_default None 63 false false with
+  | Ok (cw, _) => decode_data cw = Ok d | _ => False end.
+Proof. vm_compute. repeat split. Qed.
 
 (* the hypotheses of the theorems for {ASCII, X12}, {ASCII, C40} and {ASCII, Text} are satisfiable, and the runs they speak about occur:
    plans that really switch into the second mode, streams with its latch, the round trip *)
